@@ -310,11 +310,17 @@ class SmtpRelayClient(RelayPoolClient):
         try:
             self._connect()
             self._handshake()
+            reused = False
             while result:
-                if self._check_server_timeout():
+                # Only a connection that has been sitting idle can have been
+                # timed out by the server. Putting the request back because
+                # of a fresh connection would make the pool reconnect forever
+                # to a server that hangs up after the handshake.
+                if reused and self._check_server_timeout():
                     self.queue.appendleft((result, envelope))
                     break
                 self._deliver(result, envelope)
+                reused = True
                 if self.idle_timeout is None:
                     break
                 result, envelope = self.poll()
